@@ -442,8 +442,10 @@ class RefSig:
         t = self.END if t is None else t
         if i in path:
             return ("cycle", len(path) - path.index(i))
-        if i in self.cache_time and t > self.cache_time[i] and i not in self.hcyc:
-            t = self.cache_time[i]  # served from the identifier cache
+        if i in self.cache_time and t > self.cache_time[i] and (not path or i not in self.hcyc):
+            # served from the identifier cache (a node on a cycle is recomputed when it is reached from
+            # another node, but a direct request returns what was stored at the first one)
+            t = self.cache_time[i]
         memo = i not in self.cyc
         if memo and (i, t) in self._memo:
             return self._memo[(i, t)]
